@@ -211,7 +211,8 @@ class HassebGateway(Gateway):
             elif oc[0] == "error":
                 self.emit(bytes([3, oc[1] if len(oc) > 1 else 0]), "txanswer")
             else:
-                self.emit(bytes([1, 0]), "txanswer")
+                # "second byte is optional response data" (hid.py): a status-only report for some units, two bytes for others
+                self.emit(bytes([1]) if (value >> 9) & 1 else bytes([1, 0]), "txanswer")
 
 
 class HidSim:
